@@ -384,9 +384,16 @@ def check_unit(rep, unit, registry_owner=False):
             continue
         check_memo(rep, unit, q, fn, cname, [w for _q, _f, w in lst])
         # other functions must not read the container either
+        last_write = max([w[3].lineno for _q, _f, w in lst] or [0])
         for q2, fn2, _c in unit.funcs:
             if fn2 is fn:
                 continue
+            # a private helper that only the owner calls, after the owner has filled the memo, reads what the owner would read
+            if fn2.name.startswith('_') and _c is None:
+                uses = [x for x in ast.walk(unit.tree) if isinstance(x, ast.Name) and x.id == fn2.name and isinstance(x.ctx, ast.Load)]
+                inside = [x for x in ast.walk(fn) if isinstance(x, ast.Call) and isinstance(x.func, ast.Name) and x.func.id == fn2.name]
+                if uses and len(uses) == len(inside) and all(c.lineno > last_write for c in inside):
+                    continue
             loc, _g = local_names(fn2)
             for n in ast.walk(fn2):
                 if isinstance(n, ast.Name) and n.id == cname and cname not in loc and isinstance(n.ctx, ast.Load):
